@@ -213,6 +213,13 @@ def iterRangeShape(self, start, end, step=1, tick=True):
 
     for c in range(start, end, step):
         p = self.getPayload(c)
+
+        # Tell the metrics where this loop is (as iterRangeShapeRef() does
+        # through getPayloadRef()), so that traces of the ranks below
+        # report the coordinate of this rank
+        if is_collecting and tick:
+            Metrics.addUse(rank, c, None, type_=None)
+
         yield CoordPayload(c, p)
 
         if is_collecting and tick:
